@@ -58,6 +58,7 @@ CaseOK(c) ==
     [] c.kind = "matches" -> c.obs = MatchesOp(c.ast, c.buf, [nocase |-> c.nocase, dotall |-> c.dotall, wide |-> FALSE])
     [] c.kind = "rescanerr" -> FALSE      \* a scan of a small buffer with a small expression must end with a verdict, not an error
     [] c.kind = "cond" -> c.obs = Verdict(c.ast, c.env)
+    [] c.kind = "static" -> StaticOK(c)
     [] c.kind = "load" -> c.ret = LoadBytes(c.file, c.n)
     [] c.kind = "corrupt" -> CorruptOK(c.ret)
     [] c.kind = "audit" -> AuditOK(c)
